@@ -280,6 +280,153 @@ impl<'a> Builder<'a> {
     }
 }
 
+// ------------------------------------------------------------------ structure setters
+
+/// does this table make its own path exist in the printed document?
+fn shows(t: &Table) -> bool {
+    let child_shows = |t: &Table| {
+        t.iter().any(|(_, i)| match i {
+            Item::Table(c) => shows(c),
+            Item::ArrayOfTables(a) => !a.is_empty(),
+            Item::Value(_) => true,
+            Item::None => false,
+        })
+    };
+    if t.is_dotted() || t.is_implicit() {
+        child_shows(t)
+    } else {
+        true
+    }
+}
+
+/// Setters that change how a tree is laid out but not what it says: implicit / dotted / position
+/// of tables, whitespace around keys, trailing commas and trailing trivia of arrays. A flag that
+/// would make an empty table vanish (documented for implicit and dotted tables) is taken back.
+fn apply_setters(rng: &mut Rng, t: &mut Table, routes: &mut Vec<&'static str>, next_pos: &mut usize) {
+    let keys: Vec<String> = t.iter().map(|(k, _)| k.to_string()).collect();
+    for k in keys {
+        if rng.chance(1, 6) {
+            if let Some(mut km) = t.key_mut(&k) {
+                routes.push("KeyMut::leaf_decor_mut / dotted_decor_mut (blanks)");
+                km.leaf_decor_mut().set_prefix(*rng.pick(&["", " ", "\t", "  "]));
+                km.leaf_decor_mut().set_suffix(*rng.pick(&["", " ", "\t "]));
+                km.dotted_decor_mut().set_prefix(*rng.pick(&["", " "]));
+                km.dotted_decor_mut().set_suffix(*rng.pick(&["", " ", "\t"]));
+            }
+        }
+        let Some(item) = t.get_mut(&k) else { continue };
+        match item {
+            Item::Table(sub) => {
+                // positions in the order the tables would be printed anyway, with gaps (any other
+                // numbering can put a sub-table of an array-of-tables element under the wrong
+                // element: the caller's responsibility, not judged here)
+                *next_pos += 1 + rng.below(3);
+                if rng.chance(1, 2) {
+                    routes.push("Table::set_position");
+                    sub.set_position(*next_pos);
+                }
+                apply_setters(rng, sub, routes, next_pos);
+                match rng.below(8) {
+                    0 | 1 => {
+                        sub.set_implicit(true);
+                        if shows(sub) {
+                            routes.push("Table::set_implicit(true)");
+                        } else {
+                            sub.set_implicit(false);
+                        }
+                    }
+                    2 | 3 => {
+                        sub.set_dotted(true);
+                        if shows(sub) {
+                            routes.push("Table::set_dotted(true)");
+                        } else {
+                            sub.set_dotted(false);
+                        }
+                    }
+                    _ => {}
+                }
+            }
+            Item::ArrayOfTables(a) => {
+                for e in a.iter_mut() {
+                    *next_pos += 1 + rng.below(3);
+                    if rng.chance(1, 2) {
+                        routes.push("Table::set_position (array-of-tables element)");
+                        e.set_position(*next_pos);
+                    }
+                    apply_setters(rng, e, routes, next_pos);
+                }
+            }
+            Item::Value(v) => setters_in_value(rng, v, routes),
+            Item::None => {}
+        }
+    }
+}
+
+fn setters_in_value(rng: &mut Rng, v: &mut Value, routes: &mut Vec<&'static str>) {
+    match v {
+        Value::Array(a) => {
+            for e in a.iter_mut() {
+                setters_in_value(rng, e, routes);
+            }
+            if rng.chance(1, 3) {
+                routes.push("Array::set_trailing_comma");
+                a.set_trailing_comma(rng.coin());
+            }
+            if rng.chance(1, 3) {
+                routes.push("Array::set_trailing");
+                a.set_trailing(*rng.pick(&["", " ", "\n", " # last\n", "\n  # last\n\t"]));
+            }
+        }
+        Value::InlineTable(t) => {
+            let keys: Vec<String> = t.iter().map(|(k, _)| k.to_string()).collect();
+            for k in keys {
+                if rng.chance(1, 6) {
+                    if let Some(mut km) = t.key_mut(&k) {
+                        routes.push("KeyMut on an inline table key (blanks)");
+                        km.leaf_decor_mut().set_prefix(*rng.pick(&["", " ", "\t"]));
+                        km.leaf_decor_mut().set_suffix(*rng.pick(&["", " "]));
+                    }
+                }
+                if let Some(e) = t.get_mut(&k) {
+                    setters_in_value(rng, e, routes);
+                    if let Value::InlineTable(sub) = e {
+                        if !sub.is_empty() && rng.chance(1, 4) {
+                            routes.push("InlineTable::set_dotted(true)");
+                            sub.set_dotted(true);
+                        }
+                    }
+                }
+            }
+        }
+        _ => {}
+    }
+}
+
+/// the key/value pairs of a table's own section, dotted tables flattened: what `get_values` promises
+fn expected_values(t: &Table, prefix: &mut Vec<String>, out: &mut Vec<(Vec<String>, String)>) {
+    for (k, i) in t.iter() {
+        prefix.push(k.to_string());
+        match i {
+            Item::Table(c) if c.is_dotted() => expected_values(c, prefix, out),
+            Item::Value(Value::InlineTable(c)) if c.is_dotted() => expected_inline_values(c, prefix, out),
+            Item::Value(v) => out.push((prefix.clone(), v.to_string().trim().to_string())),
+            _ => {}
+        }
+        prefix.pop();
+    }
+}
+
+fn expected_inline_values(t: &InlineTable, prefix: &mut Vec<String>, out: &mut Vec<(Vec<String>, String)>) {
+    for (k, v) in t.iter() {
+        prefix.push(k.to_string());
+        match v {
+            Value::InlineTable(c) if c.is_dotted() => expected_inline_values(c, prefix, out),
+            v => out.push((prefix.clone(), v.to_string().trim().to_string())),
+        }
+        prefix.pop();
+    }
+}
+
 fn to_toml_value(v: &RVal) -> toml::Value {
     match v {
         RVal::Str(s) => toml::Value::from(s.as_str()),
@@ -392,7 +539,7 @@ impl Check for C06 {
     }
     fn workloads(&mut self, tier: Tier, _seed: u64) -> Vec<(String, u64)> {
         let k = if tier == Tier::Quick { 10 } else { 80 };
-        vec![("edit-built".into(), 150_000 * k), ("toml-built".into(), 60_000 * k), ("fragments".into(), 40_000 * k), ("conversions".into(), 40_000 * k)]
+        vec![("edit-built".into(), 150_000 * k), ("toml-built".into(), 60_000 * k), ("fragments".into(), 40_000 * k), ("conversions".into(), 40_000 * k), ("setters".into(), 60_000 * k)]
     }
     fn run(&mut self, ctx: &mut Ctx, workload: &str, index: u64, rng: &mut Rng) {
         ctx.eval();
@@ -429,6 +576,44 @@ impl Check for C06 {
                             ctx.violation("print-not-pure", format!("printing twice / printing a clone differ: {p1:?} vs {p2:?} vs {p3:?}"));
                         }
                         self.check_print(ctx, "DocumentMut", &p1, &exp, KeyOrder::Exact);
+                    }
+                }
+            }
+            "setters" => {
+                let r = guarded(|| {
+                    let mut b = Builder { rng, routes: Vec::new() };
+                    let (mut t, exp) = b.table(&tree, 0);
+                    let mut routes = Vec::new();
+                    apply_setters(b.rng, &mut t, &mut routes, &mut 0);
+                    // what get_values lists for the root section, against a walk of the same tree
+                    let mut want = Vec::new();
+                    expected_values(&t, &mut Vec::new(), &mut want);
+                    let got: Vec<(Vec<String>, String)> = t.get_values().into_iter().map(|(path, v)| (path.iter().map(|k| k.get().to_string()).collect(), v.to_string().trim().to_string())).collect();
+                    let mut doc: toml_edit::DocumentMut = t.into();
+                    if b.rng.chance(1, 3) {
+                        routes.push("DocumentMut::set_trailing");
+                        doc.set_trailing(*b.rng.pick(&["\n", "  ", "# the end", "\n# the end\n\n"]));
+                    }
+                    let p1 = doc.to_string();
+                    let p2 = doc.clone().to_string();
+                    (p1, p2, exp, routes, want, got)
+                });
+                match r {
+                    Err((loc, msg)) => ctx.violation(&format!("panic:{}", crate::short_loc(&loc)), format!("building, setting or printing panicked at {loc}: {msg}")),
+                    Ok((p1, p2, exp, routes, want, got)) => {
+                        for r in &routes {
+                            ctx.count(&format!("route/{r}"));
+                        }
+                        if index % 20_011 == 0 {
+                            ctx.sample("setters", || p1.clone());
+                        }
+                        if p1 != p2 {
+                            ctx.violation("print-not-pure", format!("printing a clone differs: {p1:?} vs {p2:?}"));
+                        }
+                        if want != got {
+                            ctx.violation("get-values-differs", format!("Table::get_values lists {got:?}; the section's own key/value pairs are {want:?}"));
+                        }
+                        self.check_print(ctx, "DocumentMut after layout setters", &p1, &exp, KeyOrder::Any);
                     }
                 }
             }
